@@ -228,12 +228,23 @@ pub fn state_val(st: &ResolvedSemanticState) -> Val {
         for ev in &m.extern_values {
             evs.push(extern_value_val(ev));
         }
+        // backend blocks for the rust backend, in the order pyxis keeps them (prologue, epilogue per block)
+        let mut bks = vec![];
+        if let Some(bs) = m.backends.get("rust") {
+            for b in bs {
+                bks.push(Val::L(vec![opt_s(&b.prologue), opt_s(&b.epilogue)]));
+            }
+        }
+        let mut other_backends: Vec<String> = m.backends.keys().filter(|k| k.as_str() != "rust").cloned().collect();
+        other_backends.sort();
         mods.push(Val::L(vec![
             s("module"),
             Val::S(mp.to_string()),
             opt_s(&m.doc),
             Val::L(items),
             Val::L(evs),
+            Val::L(bks),
+            Val::L(other_backends.into_iter().map(Val::S).collect()),
         ]));
     }
     Val::L(mods)
@@ -854,6 +865,18 @@ pub fn t_items(a: &[i64]) -> Val {
         exts.push(("TVftable".into(), As::from(vec![A::size(64), A::align(8)])));
     }
     m = m.with_extern_types(exts);
+    // a[7]: backend blocks of module m: 0 none, 1 [rust], 2 [rust, rust], 3 [rust, cpp, rust], 4 [cpp, rust], 5 [rust, rust, cpp, rust]
+    let rb = |i: usize| B::new("rust").with_prologue(format!("P{}", i)).with_epilogue(format!("E{}", i));
+    let cb = || B::new("cpp").with_prologue("CP").with_epilogue("CE");
+    let bks: Vec<B> = match a[7] {
+        1 => vec![rb(1)],
+        2 => vec![rb(1), rb(2)],
+        3 => vec![rb(1), cb(), rb(2)],
+        4 => vec![cb(), rb(1)],
+        5 => vec![rb(1), rb(2), cb(), rb(3)],
+        _ => vec![],
+    };
+    m = m.with_backends(bks);
     let mut st = SemanticState::new(ps);
     if let Err(e) = st.add_module(&m, &IP::from("m")) {
         return outcome(Err(e));
@@ -1128,7 +1151,7 @@ pub fn t_equiv(a: &[i64]) -> Val {
 //   n: extern S (size sn);  m: use n;  type R { f: S, p: *const R }  [vftable on R]  enum K: u32
 //   u: not imported by m or n.  It declares, per flag: a type named R (colliding short name), a type named S of another size,
 //      a type with a vftable named like R's table (RVftable), an enum K, and it may import m.
-// a = [ps, sn, r_vft, u_R, u_S, u_S_size, u_RVftable, u_K, u_uses_m, u_first]
+// a = [ps, sn, r_vft, u_R, u_S, u_S_size, u_RVftable, u_K, u_uses_m, u_first, u_impl_R]
 pub fn t_unrelated(a: &[i64]) -> Val {
     let ps = a[0] as usize;
     let mn = M::new().with_extern_types([(
@@ -1165,6 +1188,13 @@ pub fn t_unrelated(a: &[i64]) -> Val {
     }
     if a[8] != 0 {
         mu = mu.with_uses([IP::from("m")]);
+    }
+    if a[10] != 0 {
+        // an impl block in u for the name `R` (u's own R if it declares one, otherwise a name that is only visible through `use m`)
+        mu = mu.with_impls([FB::new(
+            "R",
+            [F::new((V::Public, "from_u"), [Ar::ConstSelf]).with_attributes([A::integer_fn("address", 4096)])],
+        )]);
     }
     let run = |with_u: bool| -> Val {
         let mut st = SemanticState::new(ps);
